@@ -82,7 +82,7 @@ def run(tier):
         strict(ck, "read-mutations", "fv-total", ["c01", "mutate", "--sessions", side, "--muts", muts, "--drive-every", 6, "--out", os.path.join(wd, "e.ndjson")])
     seeds = [vlib.seed() + i for i in range(2 if q else 10)]
     for s in seeds:
-        strict(ck, "api-drive:%d" % s, "fv-total", ["c02", "corpus", "--seed", s, "--mutations", 24 if q else 80, "--out", os.path.join(wd, "f.ndjson")])
+        strict(ck, "api-drive:%d" % s, "fv-total", ["c02", "corpus", "--seed", s, "--mutations", 24 if q else 80, "--field-stride", 5 if q else 1, "--out", os.path.join(wd, "f.ndjson")])
     s0 = vlib.seed()
     strict(ck, "glyf", "fv-write", ["c09", "random", "--seed", s0, "--n", 200 if q else 1500, "--out", os.path.join(wd, "g.ndjson")])
     strict(ck, "gvar", "fv-write", ["c10", "random", "--seed", s0, "--n", 150 if q else 800, "--out", os.path.join(wd, "h.ndjson")])
@@ -90,6 +90,18 @@ def run(tier):
     strict(ck, "cmap", "fv-write", ["c08", "random", "--seed", s0, "--n", 200 if q else 1500, "--out", os.path.join(wd, "j.ndjson")])
     strict(ck, "layout", "fv-write", ["c16", "lookups", "--seed", s0, "--n", 80 if q else 400, "--big", 2 if q else 6, "--out", os.path.join(wd, "k.ndjson")])
     strict(ck, "hinted-memory", "fv-write", ["c12", "variants", "--out", os.path.join(wd, "l.ndjson")])
+    # IFT client: patch application graph (incl. hostile patch headers), format 1 / format 2 selection
+    vlib.stage_specs(wd, "ift")
+    import importlib
+    c18 = importlib.import_module("c18")
+    c18.gen_mc(json.load(open(c18.CAT)), wd, 2)
+    out = tlc_out(ck, wd, "MC_IFTApply", None, "iftapply", workers=4)
+    strict(ck, "ift-apply", "fv-ift", ["c18", "--graph", out, "--catalogue", c18.CAT])
+    os.remove(out)
+    out = tlc_out(ck, wd, "IFT1MC", "IFT1MC.cfg", "ift1", xmx="8g")
+    strict(ck, "ift-format1", "fv-ift", ["c19", "f1", "--cases", out, "--every", 3 if q else 1, "--out", os.path.join(wd, "n.ndjson")])
+    os.remove(out)
+    strict(ck, "ift-select-random", "fv-ift", ["c19", "random", "--seed", s0, "--n", 300 if q else 1500, "--out", os.path.join(wd, "o.ndjson")])
     strict(ck, "subset-corpus", "fv-subset", ["c17", "corpus", "--seed", s0, "--n", 12 if q else 80, "--out", os.path.join(wd, "m.ndjson")])
     return ck.finish()
 
